@@ -14,14 +14,15 @@ CLAIMED = {
             "algorithms implement the map (C01_map, C01_exists, one-step laws); read and WRITE refinement of the database-level machine "
             "(Hexary/D.v) to the tree level: for every history of direct set/delete/set-to-empty from the empty database, pruning off or "
             "on, every call succeeds and get(k) = spec(k) for every byte-string key (C01_D_nonpruning, C01_D_pruning; premises: no "
-            "collision among / size bound on the bodies the history writes). Histories through squash_changes are tied by correspondence "
-            "(implementation = D model = T model, evaluated in Coq) and the batch theorems of C05.",
+            "collision among / size bound on the bodies the history writes); the same for histories that mix direct writes with squash_changes "
+            "blocks, committed or aborted (C01_D_*_batched, by a simulation between the ScratchDB-backed batch trie and an exact plain trie). "
+            "Nested blocks and blocks with a failing write are tied by correspondence (implementation = D model = T model, evaluated in Coq).",
             "Coq proof (nested induction on the trie; fold over histories) + vm_compute correspondence of the D-level state machine", "5/C01", ""),
     "C02": ("Theorems (closed, every history, every hash function): canonical-shape invariant, canonical tree unique for its contents, "
             "history independence of the root, blank root for the empty mapping, and trun ops = Yellow-Paper construction yp_tree of the "
             "contents, hence root = yp_root; database level (C02_D): the root_hash attribute after any history of direct writes, pruning or "
-            "not, is yp_root of the contents. External anchors: ethereum/tests vectors evaluated with the Gallina Keccak-256. Batched "
-            "histories by correspondence: impl root = troot keccak256 (T run) = yp_root keccak256 (mapping), evaluated in Coq.",
+            "not, is yp_root of the contents. Also after histories with committed / aborted squash_changes blocks (C02_D_batched). External anchors: ethereum/tests vectors "
+            "evaluated with the Gallina Keccak-256. Run-time oracle: impl root = troot keccak256 (T run) = yp_root keccak256 (mapping), evaluated in Coq.",
             "Coq proof (invariant + uniqueness + specification equality) + in-Coq evaluation of the Yellow-Paper root for the oracle", "5/C02", ""),
     "C03": ("Theorems over the database-level model, any hash function, explicit finite no-collision premise: get_from_proof against ANY list "
             "of well-formed nodes and any root returns the true value or BadTrieProof (C03_sound); a withheld hashed node on the path gives "
@@ -33,8 +34,10 @@ CLAIMED = {
             "any root succeed identically on every super-store (old roots stay readable).",
             "Coq proof (effect discipline by induction on fuel; read monotonicity) + vm_compute correspondence over shared stores with write failures", "5/C04", ""),
     "C05": ("Theorems: leaving the block by an exception at any point restores root, database and reference counts exactly (C05_abort); a "
-            "failing commit on a non-pruning trie keeps the root and every earlier entry. 'added nodes are reachable from the new root / "
-            "everything needed is present' after a normal exit is not proved: it rests on the reachable-set oracle and correspondence.",
+            "failing commit on a non-pruning trie keeps the root and every earlier entry; after a normal exit the outer trie is exactly the trie "
+            "of the block's writes applied in order: pruning outer trie — counts and database stay exact (C05_commit_pruning); non-pruning — "
+            "the new store represents the new tree, contains the old store, and every key it adds is a node of the FINAL tree, so no "
+            "intermediate-only node is added (C05_commit_nonpruning). Nested blocks: correspondence + reachable-set oracle.",
             "Coq proof (ScratchDB wrapped-store invariance through every D-level function) + vm_compute correspondence with every abort point / failing commit write", "5/C05", ""),
     "C07": ("Theorems: on a sub-store every read gives the same result as on the complete store or a Missing* error naming a hash absent here "
             "and present there; reports are truthful (hash absent, correct root/key, prefix = exact nibble path to the reference); a failed "
@@ -44,11 +47,14 @@ CLAIMED = {
             "Coq proof + vm_compute correspondence over every single-node and random-subset removal", "5/C07", ""),
     "C08": ("Theorems (tree level, every canonical trie, every path): blank iff no key below; the node at a path is the canonical sub-trie; what "
             "a caller sees (incl. simulated nodes) is the annotation of THE canonical node for the keys below; partial-path fields; "
-            "traverse_from composes; root_node. Database-level link by correspondence + the Yellow-Paper description evaluated in Coq.",
+            "traverse_from composes; root_node. Database level: traverse and traverse_from refine the tree level (C08_traverse_refines, "
+            "C08_traverse_from_refines); run-time oracle: the Yellow-Paper description evaluated in Coq.",
             "Coq proof (structural induction, canonical uniqueness) + vm_compute correspondence + in-Coq specification oracle", "5/C08", ""),
     "C10": ("Theorems (tree level): items = contents, strictly ascending, each once; next(k) / next() are the strict successor / minimum by "
             "the mirrored _get_key_after / _get_next_key; nodes() preorder = ascending prefixes, each node exactly once and equal to "
-            "traverse(prefix). The fog loop of nodes() is tied by correspondence to tnodes evaluated in Coq.",
+            "traverse(prefix). Database level (Fog/Walk_proofs.v): the fog loop of nodes() with its frontier cache returns exactly tnodes "
+            "(C10_D_nodes), items() the stored pairs in ascending byte order (C10_D_items*), next(k)/next() the least stored byte key above k "
+            "/ the least key (C10_D_next_*), on every store representing a canonical tree with even-length keys (which the byte API guarantees).",
             "Coq proof + vm_compute correspondence + in-Coq specification oracle", "5/C10", ""),
     "C12": ("Theorems (tree-level mirror of _set/_set_kv_node/_set_branch_node, every history over non-empty keys, every H): get = map model "
             "with the refusal rule; delete/delete_subtrie semantics incl. when they may be refused; a refused call changes nothing; the tree "
@@ -61,8 +67,8 @@ CLAIMED = {
     "C06": ("Theorem C06_exact (write refinement for pruning tries): after every history of direct set/delete/set-to-empty from the empty "
             "database, reference counts = occurrence counts of the tree-level result, the database holds exactly its nodes, every key is "
             "readable and the root is yp_root — under an explicit executable no-collision premise. Plus the bookkeeping layer "
-            "(C06_accounting, _complete_pruning spec, regenerate only counts what it read). Histories containing squash_changes batches: "
-            "oracle (== regenerate_ref_count and == db key set after every call) + correspondence + C05.",
+            "(C06_accounting, _complete_pruning spec, regenerate only counts what it read). C06_exact_batched: the same exactness after "
+            "histories that also contain committed / aborted squash_changes blocks. Run-time oracle: == regenerate_ref_count and == db key set after every call.",
             "Coq proof (multiset/count arithmetic through the monadic model) + vm_compute correspondence + regenerate oracle after every call", "5/C06", ""),
     "C09": ("Theorems (tree-level LTS, every schedule = every exploration order, every interleaving with set/delete, reads of current or stale "
             "versions, simulated nodes): stable keys are met or still covered by the fog; complete fog => all stable keys met; no ghosts; "
